@@ -55,3 +55,18 @@ package remember
 //@   ensures mw_only_anonymous: each Store.UseRememberToken(_, _) =>
 //@       ite(ctxpid(r) != nil, asstring(ctxpid(r)) == "", sess(r, "uid") == "")
 //@   ensures mw_next_runs: !panics ==> emits Next.ServeHTTP(_, _, _)
+//@
+//@ func (*Remember).AfterPasswordReset
+//@   property C06
+//@   -- after a password recovery every remember token of that account is revoked and the
+//@   -- browser's cookie removed
+//@   ensures reset_hook: result.1 == nil ==> ((emits Cook.Del("rm")) &&
+//@       (emits Store.DelRememberTokens(?p) -> ?e :: e == nil &&
+//@          ite(ctxuser(req) != nil, p == PID(ctxuser(req)), emits Store.Load(_) -> (?u, ?le) :: le == nil && p == PID(u))))
+//@   ensures never_touches_session: !emits Sess.Put(_, _)
+//@
+//@ func (*Remember).Init
+//@   property C06 C07
+//@   ensures[C06] registered_reset: emits Events.Register("After", EventRecoverEnd, ?h) :: fname(h) == "(*Remember).AfterPasswordReset"
+//@   ensures[C07] registered_auth: (emits Events.Register("After", EventAuth, ?h) :: fname(h) == "(*Remember).RememberAfterAuth") &&
+//@       (emits Events.Register("After", EventOAuth2, ?h2) :: fname(h2) == "(*Remember).RememberAfterAuth")
